@@ -247,6 +247,24 @@ def reject_nontime(c):
     return n
 
 
+def multi_model_granularities(c, n):
+    """several granularities of ONE time dimension (week next to month / quarter / year, on data where a week lies in two months) in a query whose
+    metrics come from two models: every (week, month) pair is its own group and each metric keeps the value it has alone"""
+    from harness.props import c03
+    done = 0
+    for _ in range(n):
+        f, q = c03.gen_straddle_case(c.rng)
+        try:
+            ok, detail = c03.joint_vs_alone(f, q)
+        except Exception as e:
+            ok, detail = False, {"error": str(e)[:300]}
+        done += 1
+        if not ok:
+            c.violation("a time dimension requested at week and at a calendar granularity in a two-model query: groups / values differ from the single-metric queries",
+                        {"kind": "multi_model_grans", "forest": f, "query": q, "detail": detail})
+    return done
+
+
 def run(c):
     c.trusted += ["Base/Calendar.v hand-written calendar (Hinnant's civil-from-days), proved a floor for all t; tied to DuckDB DATE_TRUNC by correspondence",
                   "Model/Single.v + Sem.Trunc as the model of the <dim>__<gran> CTE columns and of base-granularity truncation of a bare time dimension; Model/TimeDim.v hand-written model of the default-time-dimension step",
@@ -268,6 +286,7 @@ def run(c):
     n_cases, multi = e2e(c, 150 if c.tier == "quick" else 2500)
     n_add = additivity(c, 2 if c.tier == "quick" else 20)
     n_def = defaults(c, 300 if c.tier == "quick" else 4000)
+    n_cases += multi_model_granularities(c, 12 if c.tier == "quick" else 120)
     n_rej = reject_nontime(c)
     c.obligation("oracle: spec rows, additivity from the implementation's finer result (%d pairs), default-time-dimension iff (%d cases), rejection of non-time / unknown granularities (%d)" % (n_add, n_def, n_rej),
                  not c.violations, "correspondence")
@@ -279,6 +298,16 @@ def run(c):
 
 def replay(path):
     body = json.load(open(path))
+    if body["replay"].get("kind") == "multi_model_grans":
+        from harness.props import c02, c03
+        r = body["replay"]
+        f, q = r["forest"], r["query"]
+        q["dims"] = [(m, c02.sg_t(e)) for m, e in q["dims"]]
+        q["mets"] = [(m, a, c02.sg_t(e) if e else None, [c02.sg_t(x) for x in fl]) for m, a, e, fl in q["mets"]]
+        q["filters"] = []
+        ok, detail = c03.joint_vs_alone(f, q)
+        print(json.dumps(detail, default=str, indent=1)[:2500])
+        return 0 if ok else 1
     r = body["replay"]
     print(json.dumps(r, indent=1, default=str)[:2500])
     if r.get("kind") == "nontime":
